@@ -1,6 +1,7 @@
 package main
 
 import (
+	"errors"
 	"fmt"
 	"math/rand"
 	"sort"
@@ -49,6 +50,14 @@ type World struct {
 	dead          []string         // ids of tables that were broken (a late report may still arrive)
 	busted        []string         // eliminated players (may re-enter under the same id)
 	rng           *rand.Rand
+	// faulty host: a callback now and then fails (the table could not be opened, the table refused the
+	// players). Players named in a failed call are known to the host as bounced.
+	faultRate   int             // 0: the host never fails; n: one callback call in n fails while armed
+	faultArmed  bool            // faults are injected only while armed ("after faults stop" for C20)
+	faultAt     map[int]bool    // replay: ordinals of the callback calls that fail
+	cbCalls     int             // callback calls so far
+	faultInCall bool            // a fault was injected during the regulator call in progress
+	bounced     map[string]bool // named in a failed callback and not seen in the queue or at a table since
 }
 
 type pendingRelease struct {
@@ -82,6 +91,21 @@ func newWorld(prop string, props []string, max, min int, rep *Report, seed int64
 	w.r = reg.NewRegulator(
 		reg.MaxPlayersPerTable(max), reg.MinInitialPlayers(min),
 		reg.WithRequestTableFn(func(players []string) (string, error) {
+			if w.hostFails() {
+				// the host cannot open a table right now. What was asked is judged all the same.
+				w.rep.Inc("class_open_refused_by_host")
+				if w.on("C19") {
+					w.rep.Inc("oracle_evaluations")
+					if len(players) > w.max {
+						w.fail("C19/opened-above-capacity", "when=open", fmt.Sprintf("a table was requested for %d players, capacity %d (the host failed the request)", len(players), w.max))
+					}
+					if w.status == 0 {
+						w.fail("C19/opened-before-start", "when=open", "a table was requested while the competition is pending (the host failed the request)")
+					}
+				}
+				w.bounce(players)
+				return "", errors.New("host: no table can be opened now")
+			}
 			w.nextT++
 			id := fmt.Sprintf("t%d", w.nextT)
 			w.rep.Inc("tables_opened")
@@ -117,6 +141,16 @@ func newWorld(prop string, props []string, max, min int, rep *Report, seed int64
 				}
 				return nil
 			}
+			if w.hostFails() {
+				// the table refuses the players (its seats are locked for a hand-over, the message was lost)
+				w.rep.Inc("class_assign_refused_by_host")
+				if w.on("C19") && len(w.tables[id])+len(players) > w.max {
+					w.rep.Inc("oracle_evaluations")
+					w.fail("C19/above-capacity", "when=assign", fmt.Sprintf("table %s holds %d players and was asked to take %d more, capacity %d (the host refused the call)", id, len(w.tables[id]), len(players), w.max))
+				}
+				w.bounce(players)
+				return errors.New("host: table " + id + " cannot take players now")
+			}
 			w.rep.Inc("assignments")
 			w.give(id, players, "assign")
 			// the host also keeps the message it received (a log, a retry queue): what the regulator handed
@@ -133,7 +167,36 @@ func newWorld(prop string, props []string, max, min int, rep *Report, seed int64
 
 func (w *World) everHadTable() bool { return w.nextT > 1 }
 
+// hostFails decides whether the callback call in progress fails (fault injection in the host)
+func (w *World) hostFails() bool {
+	w.cbCalls++
+	f := false
+	if w.faultAt != nil {
+		f = w.faultAt[w.cbCalls]
+	} else if w.faultArmed && w.faultRate > 0 {
+		f = w.rng.Intn(w.faultRate) == 0
+	}
+	if f {
+		w.faultInCall = true
+		w.rep.Inc("host_faults_injected")
+		w.trace = append(w.trace, fmt.Sprintf("fault@%d", w.cbCalls))
+	}
+	return f
+}
+
+func (w *World) bounce(players []string) {
+	if w.bounced == nil {
+		w.bounced = map[string]bool{}
+	}
+	for _, p := range players {
+		w.bounced[p] = true
+	}
+}
+
 func (w *World) give(id string, players []string, when string) {
+	for _, p := range players {
+		delete(w.bounced, p)
+	}
 	if when == "open" && len(w.tables[id]) == 0 && len(players) > 0 {
 		// the table keeps the list it was handed as its roster and appends to it later (the repo's own
 		// test callbacks do the same): the regulator must not go on using that memory
@@ -219,7 +282,8 @@ func (w *World) deliverPending(all bool) {
 		}
 		w.rep.Inc("releases")
 		w.trace = append(w.trace, fmt.Sprintf("release(%s,%d)", pr.id, len(pr.players)))
-		if err := w.r.ReleasePlayers(pr.id, w.callerBuffer(pr.players)); err != nil && w.on("C09") {
+		w.faultInCall = false
+		if err := w.r.ReleasePlayers(pr.id, w.callerBuffer(pr.players)); err != nil && w.on("C09") && !w.faultInCall {
 			w.fail("C09/release-refused", "op=release", err.Error())
 		}
 		w.reuseBuffer()
@@ -246,6 +310,7 @@ func (w *World) check(tag string) {
 	inq := map[string]int{}
 	for _, p := range q {
 		inq[p]++
+		delete(w.bounced, p)
 		if !w.alive[p] {
 			w.fail("C09/queue-holds-eliminated-or-unknown", "after="+tag, fmt.Sprintf("queue holds %s", p))
 			return
@@ -266,6 +331,12 @@ func (w *World) check(tag string) {
 		}
 		if w.transit[p] {
 			places++ // released by a table, not yet handed back to the regulator
+		}
+		if places == 0 && w.bounced[p] {
+			// named in a callback the host failed and not queued again by the regulator: the host knows
+			// about this player, nothing was lost silently
+			w.rep.Inc("class_player_bounced_by_failed_host_call")
+			continue
 		}
 		if places == 0 {
 			w.fail("C09/player-dropped", "after="+tag, fmt.Sprintf("live player %s is neither waiting nor at a table", p))
@@ -357,10 +428,11 @@ func (w *World) add(n int) {
 	}
 	w.nAlive += n
 	w.initialAlloc = w.status != 0 && w.nextT == 0
+	w.faultInCall = false
 	err := w.r.AddPlayers(w.callerBuffer(ps))
 	w.reuseBuffer()
 	w.initialAlloc = false
-	if err != nil && w.on("C09") {
+	if err != nil && w.on("C09") && !w.faultInCall {
 		w.fail("C09/registration-refused", "op=add", err.Error())
 	}
 	if n > w.max && len(w.tables) > 0 {
@@ -450,6 +522,10 @@ func (w *World) sync(id string, out int) bool {
 		w.rep.Inc("class_table_broken")
 		if w.on("C20") {
 			w.rep.Inc("oracle_evaluations")
+			if len(m) > 0 && len(w.tables) == 1 {
+				w.fail("C20/break-with-no-other-table", "op=break", fmt.Sprintf("table %s is told to break with %d players while no other table exists: they cannot be queued for another table", id, len(m)))
+				return asked
+			}
 			if rel != len(m) {
 				w.fail("C20/break-partial", "op=break", fmt.Sprintf("table %s is told to break but to release %d of its %d players", id, rel, len(m)))
 				return asked
@@ -506,14 +582,15 @@ func (w *World) sync(id string, out int) bool {
 	if len(released) > 0 || broken {
 		w.rep.Inc("releases")
 		w.trace = append(w.trace, fmt.Sprintf("release(%s,%d)", id, len(released)))
-		if err := w.r.ReleasePlayers(id, w.callerBuffer(released)); err != nil && w.on("C09") {
+		w.faultInCall = false
+		if err := w.r.ReleasePlayers(id, w.callerBuffer(released)); err != nil && w.on("C09") && !w.faultInCall {
 			w.fail("C09/release-refused", "op=release", err.Error())
 		}
 		w.reuseBuffer()
 		if broken && w.on("C20") {
 			q := reg.VerifWaitingQueue(w.r)
 			for _, p := range released {
-				if w.where[p] != "" {
+				if w.where[p] != "" || w.bounced[p] {
 					continue
 				}
 				if !hasStr(q, p) {
@@ -707,6 +784,13 @@ func runWorldHoldDeadline(w *World, r *rand.Rand, withSweep bool) {
 }
 
 func (w *World) sweepCheck() {
+	// C20 speaks about what happens once nothing else does: the host stops failing for the search
+	armed := w.faultArmed
+	w.faultArmed = false
+	defer func() { w.faultArmed = armed }()
+	if w.faultRate > 0 {
+		w.rep.Inc("class_fixpoint_search_after_host_faults")
+	}
 	T0 := len(w.tables)
 	bound := T0 + 8
 	sweeps, ok := w.sweepToFixpoint(bound)
@@ -793,6 +877,16 @@ func replayWorld(w *World, history string) {
 			w.fail(w.prop+"/panic", "regulator", fmt.Sprintf("the regulator panicked: %v", e))
 		}
 	}()
+	for _, f := range strings.Fields(history) {
+		if strings.HasPrefix(f, "fault@") {
+			var k int
+			fmt.Sscan(f[6:], &k)
+			if w.faultAt == nil {
+				w.faultAt = map[int]bool{}
+			}
+			w.faultAt[k] = true
+		}
+	}
 	for _, f := range strings.Fields(history) {
 		if w.failed {
 			return
